@@ -874,8 +874,10 @@ fn u16_full(sum: &mut Summary) {
     sum.extra.push(("u16_full".into(), "true".into()));
 }
 
+thread_local! { static LAST_PANIC: std::cell::RefCell<String> = std::cell::RefCell::new(String::new()); }
 fn main() {
     let a = parse_args();
+    std::panic::set_hook(Box::new(|info| { LAST_PANIC.with(|l| *l.borrow_mut() = format!("{info}").replace('\n', " ")); }));
     let ctx = Ctx { pool: small_pool() };
     assert_eq!(ctx.pool.len() as u64, NT);
     let all = stores();
@@ -904,9 +906,17 @@ distinct = distinct printed case text (store, ops with matcher labels)".into();
             let ops: Vec<Op> = (0..nops).map(|_| gen_op(&ctx, &mut r, &pal, &mut inserted, st.isgraph)).collect();
             (st, ops)
         };
-        let outs = run_real(&ctx, &st, &ops, &mut r);
-        let exp = run_oracle(&st, &ops);
         let text = format!("{} ops=[{}]", st.name, ops.iter().map(|o| op_text(o, st.isgraph)).collect::<Vec<_>>().join("; "));
+        // a panic of the implementation (an internal assertion, an out-of-bounds index ...) is a failure of this case, with the history as replay
+        let outs = match std::panic::catch_unwind(std::panic::AssertUnwindSafe(|| run_real(&ctx, &st, &ops, &mut r))) {
+            Ok(o) => o,
+            Err(_) => {
+                let msg = LAST_PANIC.with(|l| l.borrow().clone());
+                sum.oracle_failures.push((idx.to_string(), format!("store={}: the implementation PANICKED during the history ({}); full case: {text}", st.name, msg.chars().take(300).collect::<String>())));
+                sum.bump("implementation-panic"); sum.evaluations += 1; continue;
+            }
+        };
+        let exp = run_oracle(&st, &ops);
         let coq = format!("case_ok the_pool {} {} {} {}", st.config, st.max, coq_list(ops.iter().map(|o| c_op(o, st.isgraph))), coq_list(outs.iter().map(c_out)));
         if a.only.is_some() { println!("CASE {idx}: {text}\nIMPL   {outs:?}\nORACLE {exp:?}\nCOQ    {coq}"); }
         if outs != exp {
